@@ -13,7 +13,7 @@ class Inconclusive(Exception):
     pass
 
 
-def run(P, fn, args, heap0=None, hooks=None, budget=300000, max_forks=16, single=True, forced=None):
+def run(P, fn, args, heap0=None, hooks=None, budget=300000, max_forks=16, single=True, forced=None, memory=None):
     """Execute fn abstractly. hooks: {callee: f(events, args, interp) -> value}. Returns
     (return value, events, heap) when single=True (exactly one path must exist), else the list of such
     triples, one per explored path (a path forks where a branch depends on unknown data)."""
@@ -21,6 +21,8 @@ def run(P, fn, args, heap0=None, hooks=None, budget=300000, max_forks=16, single
     it.heap0 = dict(heap0 or {})
     it.with_heap = True
     it.forced = dict(forced or {})
+    if memory is not None:
+        it.memory = memory      # memory(base, offset, size) -> value of bytes the heap does not hold
     for name, h in (hooks or {}).items():
         it.hooks[name] = (lambda i_, node, a, h=h: h(i_.events, a, i_))
     try:
